@@ -49,7 +49,7 @@ pub struct Case {
     pub xint: Vec<f64>,
 }
 
-pub const CLASSES: [&str; 14] = [
+pub const CLASSES: [&str; 15] = [
     "diagonal",
     "integer-known-solution",
     "dense-gauss",
@@ -64,8 +64,9 @@ pub const CLASSES: [&str; 14] = [
     "nearly-symmetric",
     "svd-graded",
     "sparse",
+    "sym-indef-graded",
 ];
-const GENERAL: [u8; 11] = [0, 1, 2, 3, 4, 5, 6, 7, 8, 12, 13];
+const GENERAL: [u8; 12] = [0, 1, 2, 3, 4, 5, 6, 7, 8, 12, 13, 14];
 const SYMINDEF: [u8; 1] = [9];
 const ROUTEFLIP: [u8; 2] = [10, 11];
 
@@ -295,6 +296,44 @@ pub fn build_case(class: u8, n: usize, k: usize, salt: u64) -> Case {
                 let col: f64 = (0..n).filter(|j| *j != i).map(|j| a[j * n + i].abs()).sum();
                 let slack = if integer { (1 + rng.below(2)) as f64 } else { rng.unif_in(0.1, 1.0) };
                 a[i * n + i] = off.max(col) + slack;
+            }
+            a
+        }
+        14 => {
+            // exactly symmetric, indefinite, unstructured ill-conditioning: H·diag(±10^(-e·t))·H with one Householder
+            // reflector H (a similarity, so the eigenvalues are the graded ±values), cond 10^0..10^10. Symmetric
+            // problems that cannot use Cholesky: whatever is done "because the matrix is symmetric" on the LU route
+            // (mirroring a triangle of the result, reading one triangle of the input) shows here
+            let e = rng.int(0, 10) as f64;
+            let mut a = vec![0.0; n * n];
+            for i in 0..n {
+                let t = if n > 1 { i as f64 / (n - 1) as f64 } else { 0.0 };
+                a[i * n + i] = rng.sign() * 10f64.powf(-e * t);
+            }
+            if n >= 2 {
+                a[0] = a[0].abs();
+                a[n * n - 1] = -a[n * n - 1].abs();
+            }
+            let v: Vec<f64> = (0..n).map(|_| rng.gauss()).collect();
+            let vv: f64 = v.iter().map(|x| x * x).sum();
+            if vv > 0.0 {
+                for j in 0..n {
+                    let d: f64 = (0..n).map(|i| v[i] * a[i * n + j]).sum::<f64>() * 2.0 / vv;
+                    for i in 0..n {
+                        a[i * n + j] -= d * v[i];
+                    }
+                }
+                for i in 0..n {
+                    let d: f64 = (0..n).map(|j| a[i * n + j] * v[j]).sum::<f64>() * 2.0 / vv;
+                    for j in 0..n {
+                        a[i * n + j] -= d * v[j];
+                    }
+                }
+            }
+            for i in 0..n {
+                for j in 0..i {
+                    a[i * n + j] = a[j * n + i];
+                }
             }
             a
         }
@@ -609,7 +648,7 @@ pub fn run(ctx: &mut Ctx) {
     ctx.rule = "a case is (class, n, k, salt) expanded deterministically into A (n x n) and B (n x k): class in {diagonal, integer with known \
 solution, dense N(0,1), SPD Gram, SPD graded to cond 1e0..1e10, strictly diagonally dominant, permuted+scaled triangular, rows scaled by \
 10^±5, Householder·diag(graded singular values)·Householder to cond 1e10, pivot-critical (diagonal x 1e-14 / zero diagonal entries / singular leading minor / zero leading block), symmetric indefinite with \
-positive diagonal (eigen-signs verified by the oracle's Jacobi), SPD with one entry moved across the symmetry threshold, SPD plus an asymmetric perturbation of 1e-3..1e-12, sparse diagonally dominant with exact zeros (arrowhead / grid Laplacian / random pattern / band with holes; 3 in 4 symmetric, hence SPD)}; n in 1..=32 weighted \
+positive diagonal (eigen-signs verified by the oracle's Jacobi), SPD with one entry moved across the symmetry threshold, SPD plus an asymmetric perturbation of 1e-3..1e-12, sparse diagonally dominant with exact zeros (arrowhead / grid Laplacian / random pattern / band with holes; 3 in 4 symmetric, hence SPD), exactly symmetric indefinite with eigenvalues ±10^0..10^-10 (one Householder similarity)}; n in 1..=32 weighted \
 toward 1-9 and 8k±1; k in 1..=6; each problem also rescaled exactly by powers of two (A and B independently by 2^{0,±40,±70,±200}); plus the full (class, n) grid (each point also once rescaled) and hand-written symmetric indefinite matrices run once per entry point. All six \
 entry points run on every case. Non-trivial: n >= 2 and class != diagonal; distinct by hash of (class, n, k, entry selector, entries of A and B). \
 Cases whose oracle condition estimate exceeds 1e12 are counted under '<class>/skipped(cond>1e12)' and not evaluated."
@@ -648,7 +687,7 @@ Cases whose oracle condition estimate exceeds 1e12 are counted under '<class>/sk
             }
         }
     }
-    ctx.exhaustive.push(format!("every (class, n) pair, 14 classes x n = 1..=32, {} salt(s) each", per));
+    ctx.exhaustive.push(format!("every (class, n) pair, 15 classes x n = 1..=32, {} salt(s) each", per));
 
     let n_gen = ctx.scale(24_000, 400_000);
     ctx.run_prop_par("systems", n_gen, 16, || strat(&GENERAL), check);
